@@ -39,6 +39,10 @@ REPRO_CROSS = {
     "D-12": ("why? x1 漢 a fxzzyfgbbge I stop! 42 x1 there.\n", dict(width=25, semantic=True), dict(width=88, semantic=True)),
 }
 
+REPRO_PAIRS = {
+    "D-63": ("a \\\\\nb\n", "a \\\\ b\n", dict(width=88, semantic=False)),
+}
+
 UNESC = re.compile(r"\\([-+*_=#>`~.)])")
 
 
@@ -62,6 +66,10 @@ def classify(kf, rec):
     if cl == "heading-in-tight-list-item":
         return c.get("kind") == "cross" and o.get("list_spacing") == "preserve" and \
             c01.heading_in_tight_item(dedent(c.get("doc", "")).strip() + "\n")
+    if cl == "escaped-backslash-before-soft-break":
+        even_bs_nl = re.compile(r"(?<!\\)(?:\\\\)+\r?\n")
+        return c.get("kind") == "relayout" and (bool(even_bs_nl.search(c.get("a", ""))) != bool(even_bs_nl.search(c.get("b", ""))) or
+                                                 bool(even_bs_nl.search(c.get("a", ""))))
     if cl == "line-start-escape-persists":
         if c.get("kind") != "cross":
             return False
@@ -116,6 +124,12 @@ def run(chk: Check) -> None:
             d1 = None if (c01.structure_preserved(a, o["width"], o["semantic"]) and c01.structure_preserved(b, o["width"], o["semantic"])) else "structure changed"
             chk.fail("property", {"kind": "relayout", "a": a, "b": b, "opts": o, "out_a": oa, "out_b": ob, "c01_diff": d1,
                                   "_diff": bool(cases[2 * i].get("_diff") or cases[2 * i + 1].get("_diff"))},
+                     "two layouts of one document format differently: " + first_diff(oa, ob), classify)
+    for fid, (a, b, o) in REPRO_PAIRS.items():
+        oo = dict(width=o["width"], semantic=o["semantic"], cleanups=False, smartquotes=False, ellipses=False, list_spacing="preserve")
+        oa, ob = docports.fmt(a, oo), docports.fmt(b, oo)
+        if same_document(a, b) and oa != ob:
+            chk.fail("property", {"kind": "relayout", "a": a, "b": b, "opts": oo, "out_a": oa, "out_b": ob, "repro": fid},
                      "two layouts of one document format differently: " + first_diff(oa, ob), classify)
     chk.port_stat("spec: format(layout A) == format(layout B)", len(pairs), nb)
     # ---- (b) any width / mode first, then the target ----
